@@ -109,6 +109,12 @@ class WMSClient(object):
         if self.request_template.url != other.request_template.url:
             return None
 
+        # requests that differ in more than their layers (styles, vendor parameters, ...) can not be sent as one
+        def params_without_layers(req):
+            return dict((k.lower(), v) for k, v in req.params.iteritems() if k.lower() != 'layers')
+        if params_without_layers(self.request_template) != params_without_layers(other.request_template):
+            return None
+
         new_req = self.request_template.copy()
         new_req.params.layers = new_req.params.layers + other.request_template.params.layers
 
